@@ -86,14 +86,17 @@ def run(ctx):
             % (len(cases), sum(len(c["input"]) for c in cases), done, r.distinct, r.wall))
     ctx.states += r.distinct
     ctx.transitions += r.generated
-    if ok:
+    bad = [l for l in r.printed if l.startswith('<<"BAD"')]
+    if not ok:
+        raise vlib.MachineryError("trace validation: unexpected TLC violation %s\n%s" % (r.violation, r.out[-2000:]))
+    if not bad:
         if done != len(cases):
             raise vlib.MachineryError("trace validation stopped after %d of %d cases without a mismatch" % (done, len(cases)))
         ctx.traces_validated += len(cases)
     else:
-        m = re.search(r'bad = <<(\d+), (\d+), "([^"]*)">>', r.out)
+        m = re.match(r'<<"BAD", (\d+), (\d+), "([^"]*)">>', bad[0].strip())
         if not m:
-            raise vlib.MachineryError("trace rejected but no mismatch record found\n" + r.out[-3000:])
+            raise vlib.MachineryError("cannot parse mismatch record %s" % bad[0])
         i, off, what = int(m.group(1)), int(m.group(2)), m.group(3)
         ctx.traces_validated += done
         pl = plan[i - 1]
